@@ -8,6 +8,7 @@ its Lean content is C09 (JSON fidelity) and C02 (exactly once), not repeated her
 import GrcovModel.LlvmTools
 import GrcovModel.Props.C01
 import GrcovModel.Props.C20Consumer
+import GrcovModel.Props.C20FindBin
 namespace Grcov.Props.C20
 open Grcov AList Grcov.LlvmTools
 
